@@ -18,10 +18,10 @@ da!(t, D_SINT64, 11);
 da!(t, D_BOOL, 11);
 da!(q, D_FIXED32, 5);
 da!(t, D_DOUBLE, 9);
-da!(q, D_BYTES, 6);
-da!(q, D_VEC, 6);
-da!(q, D_STRING, 6);
-da!(t, D_FASTSTR, 6);
+da!(x, D_BYTES, 4);
+da!(x, D_VEC, 4);
+da!(x, D_STRING, 4);
+da!(x, D_FASTSTR, 4);
 da!(t, D_LEN_DELIM, 11);
 da!(q, D_SKIP_VARINT, 11);
 da!(t, D_SKIP_I64, 9);
@@ -35,5 +35,5 @@ mod b {
     pproof!{ #[kani::unwind(12)] fn c10_q_budget_message() { pbtotal::budget_one_level::<{pbtotal::B_MESSAGE}>() } }
     pproof!{ #[kani::unwind(12)] fn c10_q_budget_group() { pbtotal::budget_one_level::<{pbtotal::B_GROUP}>() } }
     pproof!{ #[kani::unwind(12)] fn c10_q_budget_map() { pbtotal::budget_one_level::<{pbtotal::B_MAP}>() } }
-    pproof!{ #[kani::unwind(12)] fn c10_q_budget_skip_group() { pbtotal::budget_one_level::<{pbtotal::B_SKIP_GROUP}>() } }
+    pproof!{ #[kani::unwind(4)] fn c10_x_budget_skip_group() { pbtotal::budget_one_level::<{pbtotal::B_SKIP_GROUP}>() } }
 }
